@@ -1089,23 +1089,49 @@ func (d *Data) addSubvolumes(layer *layerT, subvolumes *subvolumesT, batchsize i
 	}
 }
 
+// zExtents returns the Z extent in block coordinates of the ROI stored for the version
+// of the given context.  The MinZ and MaxZ properties are shared by all versions of
+// the data instance and follow the last write to any of them, so they cannot be used
+// when partitioning a particular version.
+func (d *Data) zExtents(ctx storage.Context) (minZ, maxZ int32, err error) {
+	spans, err := d.GetSpans(ctx.VersionID())
+	if err != nil || len(spans) == 0 {
+		return 0, 0, err
+	}
+	minZ, maxZ = spans[0][0], spans[0][0]
+	for _, span := range spans {
+		if span[0] < minZ {
+			minZ = span[0]
+		}
+		if span[0] > maxZ {
+			maxZ = span[0]
+		}
+	}
+	return minZ, maxZ, nil
+}
+
 // Partition returns JSON of differently sized subvolumes that attempt to distribute
 // the number of active blocks per subvolume.
 func (d *Data) Partition(ctx storage.Context, batchsize int32) ([]byte, error) {
+	minZ, maxZ, err := d.zExtents(ctx)
+	if err != nil {
+		return nil, err
+	}
+
 	// Partition Z as perfectly as we can.
-	dz := d.MaxZ - d.MinZ + 1
+	dz := maxZ - minZ + 1
 	zleft := dz % batchsize
 
 	// Adjust Z range
-	layerBegZ := d.MinZ
+	layerBegZ := minZ
 	layerEndZ := layerBegZ + batchsize - 1
 
 	// Iterate through blocks in ascending Z, calculating active extents and subvolume coverage.
 	// Keep track of current layer = batchsize of blocks in Z.
 	var subvolumes subvolumesT
 	subvolumes.Subvolumes = []subvolumeT{}
-	subvolumes.ROI.MinChunk[2] = d.MinZ
-	subvolumes.ROI.MaxChunk[2] = d.MaxZ
+	subvolumes.ROI.MinChunk[2] = minZ
+	subvolumes.ROI.MaxChunk[2] = maxZ
 
 	layer := d.newLayer(layerBegZ, layerEndZ)
 
@@ -1233,21 +1259,26 @@ func (d *Data) addSubvolumesGrid(layer *layerT, subvolumes *subvolumesT, batchsi
 
 // SimplePartition returns JSON of identically sized subvolumes arranged over ROI
 func (d *Data) SimplePartition(ctx storage.Context, batchsize int32) ([]byte, error) {
+	minZ, maxZ, err := d.zExtents(ctx)
+	if err != nil {
+		return nil, err
+	}
+
 	// Partition Z as perfectly as we can.
-	dz := d.MaxZ - d.MinZ + 1
+	dz := maxZ - minZ + 1
 	zleft := dz % batchsize
 
 	// Adjust Z range
 	addZtoTop := zleft / 2
-	layerBegZ := d.MinZ - addZtoTop
+	layerBegZ := minZ - addZtoTop
 	layerEndZ := layerBegZ + batchsize - 1
 
 	// Iterate through blocks in ascending Z, calculating active extents and subvolume coverage.
 	// Keep track of current layer = batchsize of blocks in Z.
 	var subvolumes subvolumesT
 	subvolumes.Subvolumes = []subvolumeT{}
-	subvolumes.ROI.MinChunk[2] = d.MinZ
-	subvolumes.ROI.MaxChunk[2] = d.MaxZ
+	subvolumes.ROI.MinChunk[2] = minZ
+	subvolumes.ROI.MaxChunk[2] = maxZ
 
 	layer := d.newLayer(layerBegZ, layerEndZ)
 
